@@ -9,8 +9,10 @@ package core
 // matchSpec: verdict of an expression on an item, as a function of the table name, the expression text and kind,
 // the item's attributes, the expression attribute values and the name aliases (each a map content: domain, values)
 //@ smt (declare-fun matchSpec (Str Str Str (Array Str Bool) (Array Str Int) (Array Str Bool) (Array Str Int) (Array Str Bool) (Array Str Str)) Bool)
-//@ smt (declare-fun updSpecDom (Str Str (Array Str Bool) (Array Str Int) Int Int) (Array Str Bool))
-//@ smt (declare-fun updSpecVal (Str Str (Array Str Bool) (Array Str Int) Int Int) (Array Str Int))
+// updSpec: the attributes of an item after an update expression, as a function of the table name, the expression,
+// the item's attributes before, the expression attribute values and the name aliases
+//@ smt (declare-fun updSpecDom (Str Str (Array Str Bool) (Array Str Int) (Array Str Bool) (Array Str Int) (Array Str Bool) (Array Str Str)) (Array Str Bool))
+//@ smt (declare-fun updSpecVal (Str Str (Array Str Bool) (Array Str Int) (Array Str Bool) (Array Str Int) (Array Str Bool) (Array Str Str)) (Array Str Int))
 
 // ---- representation invariants -------------------------------------------------
 
@@ -27,15 +29,15 @@ package core
 //@   sorted(i.sortedKeys) && bag(i.sortedKeys) == bagv(i.refs)
 
 // IK: the index key of the item stored under primary key pk ("" when the item lacks it or it is ill-typed)
-//@ pred IK(i *index, t *Table, pk string) := nth(i.keySchema.GetKey(t.AttributesDef, t.Data[pk]), 0)
+//@ pred IK(i *index, t *Table, pk string) := (nth(i.keySchema.GetKey(t.AttributesDef, t.Data[pk]), 1) == nil ? nth(i.keySchema.GetKey(t.AttributesDef, t.Data[pk]), 0) : "")
 
 // IMirror: refs holds exactly the stored items that have an index key, with their current key (I2, I3)
 //@ pred IMirror(i *index, t *Table) :=
-//@   forall pk string :: {i.refs[pk]} {t.Data[pk]}
+//@   forall pk string :: {i.refs[pk]} {t.Data[pk]} {pk in i.refs}
 //@     ((pk in i.refs) <==> (pk in t.Data && IK(i, t, pk) != "")) && (pk in i.refs ==> i.refs[pk] == IK(i, t, pk))
 
 //@ pred IMirrorExcept(i *index, t *Table, key string) :=
-//@   forall pk string :: {i.refs[pk]} {t.Data[pk]} pk != key ==>
+//@   forall pk string :: {i.refs[pk]} {t.Data[pk]} {pk in i.refs} pk != key ==>
 //@     ((pk in i.refs) <==> (pk in t.Data && IK(i, t, pk) != "")) && (pk in i.refs ==> i.refs[pk] == IK(i, t, pk))
 
 // IOwn: ownership - index objects, their refs maps and sortedKeys arrays are pairwise distinct and
@@ -95,8 +97,9 @@ package core
 //@   requires input.Item != nil
 //@   modifies input.Item[*]
 //@   ensures result != nil ==> content(input.Item) == old(content(input.Item))
-//@   ensures result == nil ==> dom(input.Item) == updSpecDom(input.TableName, input.Expression, old(dom(input.Item)), old(vals(input.Item)), input.Attributes, input.Aliases)
-//@   ensures result == nil ==> content(input.Item) == contentOf(updSpecDom(input.TableName, input.Expression, old(dom(input.Item)), old(vals(input.Item)), input.Attributes, input.Aliases), updSpecVal(input.TableName, input.Expression, old(dom(input.Item)), old(vals(input.Item)), input.Attributes, input.Aliases))
+//@   ensures !typeis(result, "*mtypes.ConditionalCheckFailedException")
+//@   ensures result == nil ==> dom(input.Item) == updSpecDom(input.TableName, input.Expression, old(dom(input.Item)), old(vals(input.Item)), dom(input.Attributes), vals(input.Attributes), dom(input.Aliases), vals(input.Aliases))
+//@   ensures result == nil ==> vals(input.Item) == updSpecVal(input.TableName, input.Expression, old(dom(input.Item)), old(vals(input.Item)), dom(input.Attributes), vals(input.Attributes), dom(input.Aliases), vals(input.Aliases))
 
 // ---- secondary index maintenance ------------------------------------------------
 
@@ -147,6 +150,7 @@ package core
 //@ func (*Table).validateIndexKeys
 //@   requires t != nil && t.Indexes != nil && forall n string :: {t.Indexes[n]} n in t.Indexes ==> t.Indexes[n] != nil
 //@   ensures result == nil ==> forall n string :: {t.Indexes[n]} n in t.Indexes ==> nth(t.Indexes[n].keySchema.GetKey(t.AttributesDef, item), 1) == nil
+//@   ensures result != nil ==> typeis(result, "*mtypes.baseError")
 //@   loop 1:
 //@     invariant forall n string :: {t.Indexes[n]} n in visited ==> nth(t.Indexes[n].keySchema.GetKey(t.AttributesDef, item), 1) == nil
 
@@ -222,3 +226,96 @@ package core
 //@     invariant forall n string :: {t.Indexes[n]} n in t.Indexes && !(n in visited) ==> IMirrorExcept(t.Indexes[n], t, old(KeyOf(t, input.Key)))
 //@     invariant input.ConditionExpression != nil && *input.ConditionExpression != "" ==>
 //@               old(CondHoldsD(t, input.ConditionExpression, input.ExpressionAttributeValues, input.ExpressionAttributeNames, KeyOf(t, input.Key)))
+
+//@ pred BaseDom(t *Table, key map[string]*types.Item, k string) := (k in t.Data ? dom(t.Data[k]) : dom(key))
+//@ pred BaseVals(t *Table, key map[string]*types.Item, k string) := (k in t.Data ? vals(t.Data[k]) : vals(key))
+
+//@ func (*Table).Update
+//@   requires TInv(t) && input != nil
+//@   modifies t.SortedKeys, t.Data[*], maps("map[string]string"), arrays("string"), fields("index", "sortedKeys")
+//@   ensures[C01,C03] TInv(t)
+//@   ensures[C01] result1 == nil ==> dom(t.Data) == with(old(dom(t.Data)), old(KeyOf(t, input.Key)))
+//@   ensures[C01,C07] result1 == nil ==> fresh(t.Data[old(KeyOf(t, input.Key))]) &&
+//@       dom(t.Data[old(KeyOf(t, input.Key))]) == old(updSpecDom(t.Name, input.UpdateExpression, BaseDom(t, input.Key, KeyOf(t, input.Key)), BaseVals(t, input.Key, KeyOf(t, input.Key)), dom(input.ExpressionAttributeValues), vals(input.ExpressionAttributeValues), dom(input.ExpressionAttributeNames), vals(input.ExpressionAttributeNames))) &&
+//@       vals(t.Data[old(KeyOf(t, input.Key))]) == old(updSpecVal(t.Name, input.UpdateExpression, BaseDom(t, input.Key, KeyOf(t, input.Key)), BaseVals(t, input.Key, KeyOf(t, input.Key)), dom(input.ExpressionAttributeValues), vals(input.ExpressionAttributeValues), dom(input.ExpressionAttributeNames), vals(input.ExpressionAttributeNames)))
+//@   ensures[C01] result1 == nil ==> fresh(result0) && result0 != t.Data[old(KeyOf(t, input.Key))] && content(result0) == content(t.Data[old(KeyOf(t, input.Key))])
+//@   ensures[C01] forall k string :: {t.Data[k]} k != old(KeyOf(t, input.Key)) ==> t.Data[k] == old(t.Data[k])
+//@   ensures[C08] result1 != nil ==> Unchanged(t)
+//@   ensures[C13] nth(old(t.KeySchema.GetKey(t.AttributesDef, input.Key)), 1) != nil ==> result1 != nil
+//@   ensures[C05] input.ConditionExpression != nil && *input.ConditionExpression != "" && nth(old(t.KeySchema.GetKey(t.AttributesDef, input.Key)), 1) == nil &&
+//@                !old(CondHolds(t, input.ConditionExpression, input.ExpressionAttributeValues, input.ExpressionAttributeNames, KeyOf(t, input.Key))) ==>
+//@                result1 != nil && typeis(result1, "*mtypes.ConditionalCheckFailedException")
+//@   ensures[C05] input.ConditionExpression != nil && *input.ConditionExpression != "" && result1 == nil ==>
+//@                old(CondHolds(t, input.ConditionExpression, input.ExpressionAttributeValues, input.ExpressionAttributeNames, KeyOf(t, input.Key)))
+//@   ensures[C05] result1 != nil && typeis(result1, "*mtypes.ConditionalCheckFailedException") && input.ReturnValuesOnConditionCheckFailure != nil && *input.ReturnValuesOnConditionCheckFailure == "ALL_OLD" &&
+//@                old(KeyOf(t, input.Key)) in old(dom(t.Data)) ==>
+//@                content(result1.(*mtypes.ConditionalCheckFailedException).Item) == old(content(t.Data[KeyOf(t, input.Key)]))
+//@   aborts[C08] Unchanged(t)
+//@   loop 1:
+//@     invariant TInv0(t) && IOwn(t) && content(t.AttributesDef) == old(content(t.AttributesDef))
+//@     invariant old(KeyOf(t, input.Key)) in t.Data && fresh(t.Data[old(KeyOf(t, input.Key))])
+//@     invariant forall n string :: {t.Indexes[n]} n in t.Indexes ==> arr(t.Indexes[n].sortedKeys) == old(arr(t.Indexes[n].sortedKeys)) || fresh(arr(t.Indexes[n].sortedKeys))
+//@     invariant forall n string :: {t.Indexes[n]} n in t.Indexes ==> IWf(t.Indexes[n])
+//@     invariant forall n string :: {t.Indexes[n]} n in t.Indexes && n in visited ==> IMirror(t.Indexes[n], t)
+//@     invariant forall n string :: {t.Indexes[n]} n in t.Indexes && !(n in visited) ==> IMirrorExcept(t.Indexes[n], t, old(KeyOf(t, input.Key)))
+//@     invariant forall n string :: {t.Indexes[n]} n in t.Indexes ==> nth(t.Indexes[n].keySchema.GetKey(t.AttributesDef, t.Data[old(KeyOf(t, input.Key))]), 1) == nil
+//@     invariant input.ConditionExpression != nil && *input.ConditionExpression != "" ==>
+//@               old(CondHolds(t, input.ConditionExpression, input.ExpressionAttributeValues, input.ExpressionAttributeNames, KeyOf(t, input.Key)))
+//@     invariant nth(old(t.KeySchema.GetKey(t.AttributesDef, input.Key)), 1) == nil
+//@     invariant dom(t.Data[old(KeyOf(t, input.Key))]) == old(updSpecDom(t.Name, input.UpdateExpression, BaseDom(t, input.Key, KeyOf(t, input.Key)), BaseVals(t, input.Key, KeyOf(t, input.Key)), dom(input.ExpressionAttributeValues), vals(input.ExpressionAttributeValues), dom(input.ExpressionAttributeNames), vals(input.ExpressionAttributeNames)))
+//@     invariant vals(t.Data[old(KeyOf(t, input.Key))]) == old(updSpecVal(t.Name, input.UpdateExpression, BaseDom(t, input.Key, KeyOf(t, input.Key)), BaseVals(t, input.Key, KeyOf(t, input.Key)), dom(input.ExpressionAttributeValues), vals(input.ExpressionAttributeValues), dom(input.ExpressionAttributeNames), vals(input.ExpressionAttributeNames)))
+
+// ---- table and index lifecycle ---------------------------------------------------------
+
+//@ func parseKeySchema
+//@   ensures result1 == nil ==> result0.HashKey != ""
+//@   ensures !result0.Secondary
+
+//@ func newIndex
+//@   ensures fresh(result) && result != nil && result.Table == t && result.typ == typ
+//@   ensures result.keySchema.HashKey == ks.HashKey && result.keySchema.RangeKey == ks.RangeKey && result.keySchema.Secondary
+//@   ensures fresh(result.refs) && result.refs != nil && len(result.refs) == 0 && dom(result.refs) == emptyset("string")
+//@   ensures fresh(arr(result.sortedKeys)) && arr(result.sortedKeys) != 0 && len(result.sortedKeys) == 0
+//@   ensures IWf(result)
+
+//@ func (*index).count
+//@   requires IWf(i)
+//@   ensures[C03,C18] result == len(i.refs)
+
+//@ func (*index).Clear
+//@   requires i != nil
+//@   modifies i.sortedKeys, i.refs
+//@   ensures IWf(i) && fresh(i.refs) && fresh(arr(i.sortedKeys)) && arr(i.sortedKeys) != 0 && dom(i.refs) == emptyset("string")
+
+//@ func (*Table).Clear
+//@   requires t != nil
+//@   modifies t.SortedKeys, t.Data
+//@   ensures[C18] TInv0(t) && dom(t.Data) == emptyset("string") && len(t.SortedKeys) == 0 && fresh(t.Data) && fresh(arr(t.SortedKeys)) && arr(t.SortedKeys) != 0
+
+//@ func NewTable
+//@   ensures[C18] fresh(result) && result != nil && result.Name == name
+//@   ensures[C18] TInv0(result) && dom(result.Data) == emptyset("string") && len(result.SortedKeys) == 0 && fresh(result.Data) && fresh(arr(result.SortedKeys))
+//@   ensures[C18] fresh(result.Indexes) && result.Indexes != nil && dom(result.Indexes) == emptyset("string")
+//@   ensures[C18] fresh(result.AttributesDef) && result.AttributesDef != nil && dom(result.AttributesDef) == emptyset("string")
+//@   ensures[C18] IOwn(result) && IAll(result)
+
+//@ func (*Table).deleteIndex
+//@   requires TInv(t)
+//@   modifies t.Indexes[*]
+//@   ensures[C18] TInv(t)
+//@   ensures[C18] !(indexName in old(dom(t.Indexes))) ==> result != nil && dom(t.Indexes) == old(dom(t.Indexes))
+//@   ensures[C18] indexName in old(dom(t.Indexes)) ==> result == nil && dom(t.Indexes) == without(old(dom(t.Indexes)), indexName)
+//@   ensures[C18] forall n string :: {t.Indexes[n]} n != indexName ==> t.Indexes[n] == old(t.Indexes[n])
+
+//@ func (*Table).addGlobalIndex
+//@   requires TInv(t) && gsiInput != nil && gsiInput.IndexName != nil
+//@   modifies t.Indexes[*]
+//@   ensures[C03,C18] TInv(t)
+//@   ensures[C18] result != nil ==> dom(t.Indexes) == old(dom(t.Indexes)) && vals(t.Indexes) == old(vals(t.Indexes))
+//@   ensures[C18] result == nil ==> dom(t.Indexes) == with(old(dom(t.Indexes)), *gsiInput.IndexName) && fresh(t.Indexes[*gsiInput.IndexName])
+//@   ensures[C18] forall n string :: {t.Indexes[n]} n != *gsiInput.IndexName ==> t.Indexes[n] == old(t.Indexes[n])
+//@   loop 1:
+//@     invariant fresh(i) && i != nil && IWf(i) && i.Table == t && fresh(i.refs) && i.refs != t.AttributesDef && (fresh(arr(i.sortedKeys)))
+//@     invariant forall pk string :: {i.refs[pk]} {t.Data[pk]} {pk in i.refs} pk in visited ==> ((pk in i.refs) <==> (IK(i, t, pk) != "")) && (pk in i.refs ==> i.refs[pk] == IK(i, t, pk))
+//@     invariant forall pk string :: {pk in i.refs} pk in i.refs ==> pk in visited
+//@     invariant content(t.AttributesDef) == old(content(t.AttributesDef))
